@@ -68,7 +68,7 @@ def cases(tier, salts):
                 for lam in (1e-2, 1.0):
                     # constraint kind: none / bounds / general projections (each is a different branch of the step routine);
                     # start at an ordinary point or at the origin (a kink of both regularisers)
-                    for bnd in (False, True, "proj", "proj_origin", "origin"):
+                    for bnd in (False, True, "proj", "proj_origin", "origin", "scaled", "scaled_pos"):
                         for pert in range(6 if tier == "quick" else 12):
                             for delta in (1e-3, 0.1, 0.3, 3.0):
                                 for mi in (3, 40):
@@ -212,8 +212,13 @@ def _controller(reg, lam, bnd, salt):
     key = (reg, lam, bnd, salt)
     cfg = {"prob": {"f": "lin", "A": [[1.0, 0.5], [0.2, 1.0], [0.3, 0.3]], "b": [0.1, -0.1, 0.2], "salt": salt},
            "x0": [0.5, 0.6], "reg": {"r": reg, "lam": lam}, "maxfun": 3, "rhobeg": 0.1, "memo": True}
-    if bnd is True:
+    if bnd is True or bnd == "scaled_pos":
         cfg["lo"], cfg["hi"] = [0.2, 0.25], [2.0, 2.0]
+    if bnd == "scaled":          # internal scaling, a box straddling zero (scaled and user coordinates differ in sign and size)
+        cfg["lo"], cfg["hi"], cfg["x0"] = [-2.0, -1.0], [3.0, 1.5], [0.05, -0.1]
+    if bnd in ("scaled", "scaled_pos"):
+        cfg["scaling"] = True
+        cfg["rhobeg"] = 0.02
     if bnd in ("proj", "proj_origin"):
         cfg["sets"] = [{"t": "ball", "c": [0.0, 0.0], "r": 2.0}]
     if bnd in ("proj_origin", "origin"):
@@ -255,7 +260,8 @@ def _check_regstep(case):
         tags.append("regstep_moves")
     else:
         tags.append("regstep_zero")
-        tags.append("regstep_zero:" + ("proj" if str(case["bounds"]).startswith("proj") else "bounds" if case["bounds"] is True else "none"))
+        tags.append("regstep_zero:" + ("proj" if str(case["bounds"]).startswith("proj") else "scaled" if str(case["bounds"]).startswith("scaled")
+                                       else "bounds" if case["bounds"] is True else "none"))
     return v, tags
 
 
@@ -280,7 +286,7 @@ def run(report, tier, seed):
     tags = gridx.run_grid(report, MOD, cs, classify=classify, chunk=60)
     cov = report.coverage
     need = ["geom_moves", "geom_on_ball", "ctrsbox_pgd_on_ball", "ctrsbox_geometry_on_ball", "ctrsbox_sfista_moves",
-            "regstep_moves", "regstep_zero", "regstep_zero:proj", "regstep_zero:bounds", "regstep_zero:none"]
+            "regstep_moves", "regstep_zero", "regstep_zero:proj", "regstep_zero:bounds", "regstep_zero:none", "regstep_zero:scaled"]
     missing = [t for t in need if not tags.get(t)]
     if missing:
         raise common.HarnessError("C13 grid is vacuous: %s never occurred" % missing)
